@@ -190,7 +190,15 @@ def admissionMonitor (env : Env) (cfg : Cfg) (confirmed : UtxoReg) (bs : List Bl
         let a0 := if before.any (fun p => p.id == t.id) then [s!"C11 pooled twice tx={t.id}"] else []
         let a1 := if t.ts < last.ts || next < t.ts then a0 ++ [s!"C11 admitted outside the window tx={t.id}"] else a0
         match Spec.applyTx live2 t next with
-        | none => a1 ++ [s!"C02 admitted tx spends a non-live output tx={t.id}"]
+        | none =>
+          -- what the transaction can consume at most: each DISTINCT referenced live output once
+          let refs := t.inputs.foldl (fun (acc : List Input) i =>
+            if acc.any (fun j => j.txId == i.txId && j.index == i.index) then acc else acc ++ [i]) []
+          let distinct := refs.filterMap (Spec.find (Spec.create live2 t next))
+          let inV := Spec.sumVal env distinct next
+          a1 ++ [s!"C02 admitted tx spends a non-live output tx={t.id}"] ++
+            (if Spec.sumOut t + cfg.minFee > inV then
+              [s!"C01 admitted outputs+fee>inputs tx={t.id} out={Spec.sumOut t} in={inV} (distinct live outputs)"] else [])
         | some (_, consumed) =>
           let inV := Spec.sumVal env consumed next
           let a2 := if Spec.sumOut t + cfg.minFee > inV then a1 ++ [s!"C01 admitted outputs+fee>inputs tx={t.id} out={Spec.sumOut t} in={inV}"] else a1
